@@ -391,10 +391,10 @@ theorem map_closed (inp : Input) (h : closedHyps inp = true) :
   have hstruct : ∀ c ∈ (plan inp).st.toC ++ (plan inp).st.fromC, isSubStrat c.strat = true →
       (elemOf c.rd.ty).isStructNamed = true ∧ (elemOf c.wr.ty).isStructNamed = true := by
     intro c hc hsub
-    simp only [F_namedScalarSub, List.any_eq_false, Bool.and_eq_false_iff, Bool.not_eq_false'] at hns
-    rcases hns c hc with h1 | h1
-    · rw [hsub] at h1; cases h1
-    · simpa using h1
+    simp only [F_namedScalarSub, List.any_eq_false] at hns
+    have h1 := hns c hc
+    rw [hsub] at h1
+    simpa using h1
   have hargset' : ∀ args, ((plan inp).destCtor = some args ∨ (plan inp).srcCtor = some args) →
       ∀ a ∈ args, ∀ rd, a.rd = some rd → rd.isSet = false := by
     intro args hor a ha rd hrd
@@ -413,7 +413,8 @@ theorem map_closed (inp : Input) (h : closedHyps inp = true) :
         simp only [hc, List.mem_map] at hpre
         obtain ⟨p, hp, rfl⟩ := hpre
         have := ((mem_allocPaths _ _ _ p).mp hp).1
-        simpa [declared, Input.sem] using this
+        simp only [declared, Input.sem, List.contains_iff_mem]
+        exact this
       | some args =>
         simp only [hc, List.mem_cons] at hpre
         have hcm : (ctorMatch inp.conv inp.fns inp.nm (sideFields inp.src inp.srcNew) (sideParams inp.dest inp.destNew) inp.manualW).2 = some args := hc
@@ -444,7 +445,8 @@ theorem map_closed (inp : Input) (h : closedHyps inp = true) :
         simp only [hc, List.mem_map] at hpre
         obtain ⟨p, hp, rfl⟩ := hpre
         have := ((mem_allocPaths _ _ _ p).mp hp).1
-        simpa [declared, Input.sem] using this
+        simp only [declared, Input.sem, List.contains_iff_mem]
+        exact this
       | some args =>
         simp only [hc, List.mem_cons] at hpre
         have hcm : (ctorMatch inp.conv inp.fns (canNameMatch [] inp.ic) (sideFields inp.dest inp.destNew) (sideParams inp.src inp.srcNew) inp.manualR).2 = some args := hc
@@ -467,5 +469,36 @@ theorem map_closed (inp : Input) (h : closedHyps inp = true) :
               rw [hd] at this; cases this
           · exact sideField_write_declared inp .src hws c.wr hmp.1 (hinv.fromIn c hcl).2.2
       · exact strat_declared_from inp hm c hpair.2 (fun hs => (hstruct c (List.mem_append_right _ hcl) hs).2) m hmc
+
+
+/-- name under which Props/C01.lean can state it: `shoot map`, closedness — under `closedHyps` every field
+    selector, getter / setter call, constructor call, mapper-method call, recursive ToX/FromX call and
+    embedded-pointer path mentioned by the emitted ToX and FromX is declared -/
+theorem C01_closed_map (inp : Input) (h : closedHyps inp = true) :
+    (mentionsTo inp ++ mentionsFrom inp).all (declared inp) = true := map_closed inp h
+
+/-- non-vacuity input -/
+def exClosed : Input :=
+  let sub := Ty.named .src "Sub" (.struct "N:int")
+  let subD := Ty.named .dest "Sub" (.struct "N:int,Other:string")
+  { src := .embed "Base" true (.field { name := "ID", ty := .basic "int" } .nil)
+            (.field { name := "Name", ty := .basic "string" } (.field { name := "Sub", ty := .ptr sub } .nil)),
+    dest := .field { name := "id", ty := .basic "int64" } (.field { name := "name", ty := .basic "string", get := true }
+            (.field { name := "Sub", ty := subD } .nil)),
+    destNew := true,
+    fns := [{ name := "Fn0", param := .basic "int", result := .basic "int64" }], mapperPtr := some false,
+    conv := [(.basic "int", .basic "int64"), (.basic "int64", .basic "int")] }
+
+example : closedHyps exClosed = true := by decide +kernel
+example : mentionsTo exClosed =
+    [.ctor .dest, .field .src "ID", .field .src "Name",
+     .field .src "Sub", .field .dest "Sub", .subMethod (.named .src "Sub" (.struct "N:int"))] := by decide +kernel
+example : (mentionsFrom exClosed).contains (.getter .dest "Id") = true ∧
+    (mentionsFrom exClosed).contains (.ptrPath .src ["Base"]) = true := by decide +kernel
+
+/-- the hypotheses matter: a set-only field on the reading side (F_setOnlyRead) is outside them -/
+example : closedHyps { src := .field { name := "Wo", ty := .basic "int" } .nil,
+                       dest := .field { name := "wo", ty := .basic "int", set := true } .nil, destNew := true } = false := by
+  decide +kernel
 
 end ShootVerif.Mapper
